@@ -19,7 +19,7 @@ SPEC = {
         ("_node_in_prev_ne(recursion depth bounded by the non-emitting depth, under the lattice invariant)", 'visited', r'^visited:'),
         ("BaseMatcher.__init__(default depth bound leaves stack headroom: bound + 200 <= 1000)", 'ne_depth', r'^depth:')],
     'bounded': [
-        ('totality-and-triples', suites.case_C17, 1500, 200000, RULE + '; ' + 'non-trivial = non-empty match; each case also with (y,x,time) triples and placed on the sphere (lat-lon metric); one map in five is the map after purge() / del_node(): a node is gone, the neighbour lists still name it', '')],
+        ('totality-and-triples', suites.case_C17, 1500, 200000, RULE + '; ' + 'non-trivial = non-empty match; each case also with (y,x,time) triples and placed on the sphere (lat-lon metric); one map in five is the map after purge() / del_node(): a node is gone, the neighbour lists still name it; plus search discs that end at a pole (own suite)', '')],
 }
 
 
